@@ -440,7 +440,48 @@ pub(crate) fn c05_oracle(c: &BuildCase, st: &mut Stats) -> Verdict {
         st.label_if(*overrun == 8, "rpsi 8 ignored bits");
         st.label(&format!("rpsi len%4={}", data.len() % 4));
     }
-    roundtrip("C05", c)
+    roundtrip("C05", c)?;
+    // "decoding its feedback control information yields what was put in" however the entry iterator is
+    // driven (count, last, nth, skip, step_by, fold, find, a partly consumed iterator), not only through a loop
+    if has_entries && !matches!(s.fci, FciSpec::Rpsi { .. }) {
+        let bytes = build_valid(&c.spec, c.how, "C05")?;
+        let v = no_panic("FCI entries iterator protocol", || fci_iter_protocol(s, &bytes, c.salt)).map_err(|f| Failure::new(format!("C05:{}", f.signature), f.detail))?;
+        v?;
+    }
+    Ok(())
+}
+
+fn fci_iter_protocol(s: &FbSpec, bytes: &[u8], salt: u64) -> Verdict {
+    use rtcp_types::*;
+    match (&s.fci, s.kind) {
+        (FciSpec::Nack(_), FbKind::Transport) => {
+            let want: Vec<u16> = s.fci.nack_set().unwrap().into_iter().collect();
+            if let Ok(p) = TransportFeedback::parse(bytes) {
+                if let Ok(n) = p.parse_fci::<Nack>() {
+                    iter_protocol("Nack::entries", "C05", || n.entries(), |x| x, &want, salt, false)?;
+                }
+            }
+        }
+        (FciSpec::Fir(_), FbKind::Payload) => {
+            if let Ok(p) = PayloadFeedback::parse(bytes) {
+                if let Ok(f) = p.parse_fci::<Fir>() {
+                    // the entry order is the writer's choice: the next() sequence (judged as a map by the round trip) is the reference
+                    let want: Vec<(u32, u8)> = f.entries().take(40_000).map(|e| (e.ssrc(), e.sequence())).collect();
+                    iter_protocol("Fir::entries", "C05", || f.entries(), |e| (e.ssrc(), e.sequence()), &want, salt, false)?;
+                }
+            }
+        }
+        (FciSpec::Sli(v), FbKind::Payload) => {
+            if let Ok(p) = PayloadFeedback::parse(bytes) {
+                if let Ok(f) = p.parse_fci::<Sli>() {
+                    let want: Vec<serde_json::Value> = v.iter().map(|(a, n, p)| sli_expected(*a, *n, *p)).collect();
+                    iter_protocol("Sli::lost_macroblocks", "C05", || f.lost_macroblocks(), |e| sli_observed(&format!("{e:?}")), &want, salt, false)?;
+                }
+            }
+        }
+        _ => {}
+    }
+    Ok(())
 }
 
 pub fn c05(tier: Tier) -> Check {
